@@ -259,11 +259,20 @@ impl<W: 'static, R: 'static, T: 'static> XGenerator<W, R, T> {
             }),
             Self::Repeat(gen) => either_i({
                 let gen = to_native!(gen, Self);
-                iter::repeat_with(move || {
-                    let inner: BIter<_, _, _> = Box::new(gen._iter(ns, rt.clone()));
-                    inner
+                let mut current: Option<BIter<_, _, _>> = None;
+                let mut pass_was_empty = false;
+                iter::from_fn(move || loop {
+                    if let Some(item) = current.as_mut().and_then(|pass| pass.next()) {
+                        pass_was_empty = false;
+                        return Some(item);
+                    }
+                    // repeating an empty generator yields nothing (and must not spin forever)
+                    if pass_was_empty {
+                        return None;
+                    }
+                    pass_was_empty = true;
+                    current = Some(Box::new(gen._iter(ns, rt.clone())));
                 })
-                .flatten()
             }),
             Self::TakeWhile(gen, func) => either_j({
                 let inner: BIter<_, _, _> = Box::new(to_native!(gen, Self)._iter(ns, rt.clone()));
